@@ -1,8 +1,10 @@
 #!/usr/bin/env python3
 """C05 - space-time predicates are the conjunction of the spatial and temporal tests."""
+import contextlib
 import itertools
 import os
 import sys
+import time
 
 sys.path.insert(0, os.path.dirname(os.path.abspath(__file__)))
 from lib import Check, REPO, guarded, reslit, zlit, blit   # noqa: E402
@@ -36,6 +38,77 @@ def time_sets(a, b):
     share = any(mem(t, a) and mem(t, b) for t in probes)
     incl = all(mem(t, a) for t in probes if mem(t, b))
     return share, incl
+
+
+# ---- process time zones.  MECHANISM CLASS: anything that reads a timezone-naive datetime through the PROCESS-LOCAL zone
+# (datetime.astimezone()/timestamp() on a naive value, fromtimestamp() without tz, time.mktime/localtime, strftime('%z'))
+# instead of stamping it UTC is invisible while the process zone is UTC and wrong everywhere else.  The property says
+# naive datetimes are read as UTC, whatever the process zone; so the naive part of the corpus is repeated under several
+# zones set in-process (POSIX TZ strings: no tz database needed; 'UTC-9' is nine hours EAST of Greenwich).
+ZONES = ['EST5EDT', 'UTC-9', '<+0330>-3:30', 'NZST-12NZDT,M9.5.0,M4.1.0/3', '<-11>11', 'CET-1CEST,M3.5.0,M10.5.0/3', '<+0545>-5:45']
+
+
+@contextlib.contextmanager
+def process_zone(tz):
+    os.environ['TZ'] = tz
+    time.tzset()
+    try:
+        yield
+    finally:
+        os.environ['TZ'] = 'UTC'
+        time.tzset()
+
+
+def txt(d, sep='T'):
+    """a timezone-less text of a naive datetime that TimeInterval.from_str recognises by default"""
+    return d.strftime(f'%Y-%m-%d{sep}%H:%M:%S.%f')
+
+
+def naive_ways(kind, spec):
+    """every public way of handing a shape of `kind` the timezone-NAIVE reading of `spec` (an instant or an interval):
+    [(label, Gallina dtarg of the INTENDED UTC reading, thunk -> shape)].  All of them must yield the bounds of the
+    aware UTC reading."""
+    from datetime import timedelta
+    K = KINDS[kind]
+    other = mk_dt(('v', 0, 1))
+    if spec[0] == 'i':
+        t = spec[1]
+        n = to_dt(t * H, 'naive')
+        inst, iv = f'Instant {zlit(t * H)}', f'Interval {zlit(t * H)} {zlit(t * H)}'
+        return [
+            ('ctor(dt=naive)', inst, lambda: K(dt=n)),
+            ('set_dt(naive)', inst, lambda: K().set_dt(n)),
+            ('set_dt(naive, inplace=False)', inst, lambda: K(dt=other).set_dt(n, inplace=False)),
+            ('ctor(dt=TimeInterval(naive, naive))', iv, lambda: K(dt=TimeInterval(n, n))),
+            ('ctor(dt=TimeInterval(naive, timedelta(0)))', iv, lambda: K(dt=TimeInterval(n, timedelta(0)))),
+            ('set_dt(TimeInterval(naive, naive))', iv, lambda: K(dt=other).set_dt(TimeInterval(n, n))),
+            ('ctor(dt=TimeInterval.from_str(naive text))', iv, lambda: K(dt=TimeInterval.from_str(txt(n)))),
+            ('ctor(dt=TimeInterval(naive, aware +01:30))', iv, lambda: K(dt=TimeInterval(n, to_dt(t * H, 90)))),
+            ('ctor(dt=TimeInterval(naive, naive).copy())', iv, lambda: K(dt=TimeInterval(n, n).copy())),
+            ('ctor(dt=naive) then buffer_dt(0)', inst, lambda: K(dt=n).buffer_dt(timedelta(0))),
+        ]
+    s, e = spec[1], spec[2]
+    ns, ne = to_dt(s * H, 'naive'), to_dt(e * H, 'naive')
+    iv = f'Interval {zlit(s * H)} {zlit(e * H)}'
+    hour = timedelta(hours=1)
+    ways = [
+        ('ctor(dt=TimeInterval(naive, naive))', iv, lambda: K(dt=TimeInterval(ns, ne))),
+        ('ctor(dt=TimeInterval(naive, timedelta))', iv, lambda: K(dt=TimeInterval(ns, timedelta(hours=e - s)))),
+        ('set_dt(TimeInterval(naive, naive))', iv, lambda: K(dt=other).set_dt(TimeInterval(ns, ne))),
+        ('set_dt(TimeInterval(naive, naive), inplace=False)', iv, lambda: K().set_dt(TimeInterval(ns, ne), inplace=False)),
+        ('ctor(dt=TimeInterval.from_str(naive texts))', iv, lambda: K(dt=TimeInterval.from_str(txt(ns), txt(ne, ' ')))),
+        ('ctor(dt=TimeInterval(naive, aware -05:00))', iv, lambda: K(dt=TimeInterval(ns, to_dt(e * H, -300)))),
+        ('ctor(dt=TimeInterval(aware +01:30, naive))', iv, lambda: K(dt=TimeInterval(to_dt(s * H, 90), ne))),
+        ('ctor(dt=union of two naive instants)', iv, lambda: K(dt=TimeInterval(ns, ns).union(TimeInterval(ne, ne)))),
+        ('ctor(dt=intersection of two naive intervals)', iv,
+         lambda: K(dt=TimeInterval(ns, ne + hour).intersection(TimeInterval(ns - hour, ne)))),
+    ]
+    if (e - s) % 2 == 0:
+        mid = to_dt((s + e) // 2 * H, 'naive')
+        ways.append(('ctor(dt=naive) then buffer_dt', iv, lambda: K(dt=mid).buffer_dt(timedelta(hours=(e - s) // 2))))
+        ways.append(('ctor(dt=TimeInterval(naive, naive)) then buffer_dt', iv,
+                     lambda: K(dt=TimeInterval(mid, mid)).buffer_dt(timedelta(hours=(e - s) // 2))))
+    return ways
 
 
 def reach(kind, spec, style, route):
@@ -160,6 +233,98 @@ def main():
                 cc = s.contains_coordinate(c)
                 add(f'KCoord {olit(pa)} {blit(cc)} {blit(s.contains(c))}', {'k': 'coord', 'kind': k, 'dta': sa})
 
+    # ---- the naive-datetime part of the corpus again under several PROCESS TIME ZONES (see ZONES above).  The Gallina
+    # cases carry the bounds of the INTENDED UTC reading of each spec (never read back from the object).
+    zones = ZONES[:5] if ck.tier == 'quick' else ZONES
+    rot = rng.randrange(len(kinds))
+    per_zone = 3 if ck.tier == 'quick' else len(kinds)
+
+    def flag(m, exp, got, what):
+        if exp != got:
+            m['property_violation'] = {'expected': exp, 'observed': got, 'what': what}
+
+    raised = []
+
+    def build_naive(tz, kind, sp, way):
+        """the shape, or None (reported, first two) when a legitimate way of giving naive times raises"""
+        r = guarded(way[2])
+        if r[0] == 'Ok':
+            return r[1]
+        raised.append(1)
+        if len(raised) <= 2:
+            ck.violation({'kind': 'property-fails-on-implementation',
+                          'case': {'zone': tz, 'kind': kind, 'dt': sp, 'how': way[0], 'err': r[1]},
+                          'detail': f'giving a shape the naive datetime(s) of {sp} (hours after 2020-01-01, a well-formed instant/interval) raised while the process time zone is {tz}'})
+        return None
+
+    for zi, tz in enumerate(zones):
+        with process_zone(tz):
+            zkinds = [kinds[(rot + zi * per_zone + j) % len(kinds)] for j in range(per_zone)]      # quick: 5 zones x 3 = all 15 kinds
+            # (1) every way of giving the naive reading yields the bounds of the aware UTC reading
+            for k in zkinds:
+                for sp in specs[1:]:
+                    for how, d, th in naive_ways(k, sp):
+                        r = guarded(lambda: dt_of_shape(th()))
+                        add(f'KNorm ({d}) {reslit(r, olit)}', {'k': 'norm', 'zone': tz, 'kind': k, 'how': how, 'dt': sp, 'style': 'naive', 'out': r})
+                        flag(meta[-1], ('Ok', dt_pair(sp)), r, f'time bounds of the shape given the naive datetime(s) of {sp} (hours after 2020-01-01) '
+                                                                f'while the process time zone is {tz}: must be those of the same wall-clock reading in UTC')
+                        ck.count('zone:norm')
+            # (2) the gate between a shape given NAIVE times and one stamped UTC / with an explicit offset (both orders)
+            zpairs = [(zkinds[j % per_zone], rng.choice(kinds)) for j in range(per_zone + 1)]
+            for ka, kb in zpairs:
+                combos = [(rng.choice(specs[1:]), rng.choice(specs[1:])) for _ in range(8 if ck.tier == 'quick' else 40)]
+                combos += [(('v', 0, 2), ('v', 2, 4)), (('v', 0, 2), ('i', 2)), (('i', 1), ('i', 1)), (('v', 1, 3), ('i', 1)), (('i', 3), ('v', 0, 4))]
+                for ci, (sa, sb) in enumerate(combos):
+                    wa = rng.choice(naive_ways(ka, sa))
+                    how = wa[0]
+                    xa = build_naive(tz, ka, sa, wa)
+                    if xa is None:
+                        continue
+                    got = ('Ok', (xa, KINDS[kb](dt=mk_dt(sb, ['utc', 90, -300][ci % 3]))))
+                    for swap in (False, True):
+                        (x, kx, sx), (y, ky, sy) = ((got[1][1], kb, sb), (got[1][0], ka, sa)) if swap else ((got[1][0], ka, sa), (got[1][1], kb, sb))
+                        x0, y0 = KINDS[kx](), KINDS[ky]()
+                        obs = guarded(lambda: (x0.intersects_shape(y0), x0.contains_shape(y0), x.intersects(y), x.contains(y), y in x))
+                        if obs[0] != 'Ok':
+                            ck.violation({'kind': 'implementation-raised', 'case': {'zone': tz, 'a': kx, 'b': ky, 'dta': sx, 'dtb': sy, 'err': obs[1]}})
+                            continue
+                        si, sc, oi, oc, oin = obs[1]
+                        px, py = dt_pair(sx), dt_pair(sy)
+                        add(f'KGate {olit(px)} {olit(py)} {blit(si)} {blit(sc)} {blit(oi)} {blit(oc)} {blit(oin)}',
+                            {'k': 'gate', 'zone': tz, 'a': kx, 'b': ky, 'dta': sx, 'dtb': sy, 'naive_operand': 'b' if swap else 'a', 'naive_given_as': how,
+                             'other_operand_style': ['utc', 90, -300][ci % 3], 'spatial': [si, sc], 'obs': [oi, oc, oin]})
+                        share, incl = time_sets(px, py)
+                        flag(meta[-1], [si and share, sc and incl, sc and incl], [oi, oc, oin], 'intersects / contains / in: spatial AND temporal, naive times read as UTC')
+                        if len({px[0], px[1], py[0], py[1]}) < 4:
+                            nontriv.add((kx, ky, sx, sy))
+                        ck.count('zone:gate')
+            # (3) contains_time / intersects_time / `in` with a NAIVE datetime or an interval of naive datetimes, against shapes
+            #     stamped UTC and against shapes that were themselves given naive times
+            zspecs = specs[1:] if ck.tier == 'thorough' else [specs[1 + (zi + 3 * j) % 15] for j in range(5)] + [('v', 1, 3)]
+            for sa in zspecs:
+                pa = dt_pair(sa)
+                wa = rng.choice(naive_ways(zkinds[-1], sa))
+                for a, given in ((KINDS[zkinds[0]](dt=mk_dt(sa, 'utc')), 'utc'), (build_naive(tz, zkinds[-1], sa, wa), 'naive')):
+                    if a is None:
+                        continue
+                    for t in pts:
+                        d = to_dt(t * H, 'naive')
+                        oc, oi, oin = a.contains_time(d), a.intersects_time(d), d in a.dt
+                        add(f'KTimeDt {olit(pa)} {zlit(t * H)} {blit(oc)} {blit(oi)}', {'k': 'timedt', 'zone': tz, 'dta': sa, 'shape_given': given, 't': t, 'probe': 'naive datetime'})
+                        flag(meta[-1], [mem(t * H, pa)] * 3, [oc, oi, oin], 'contains_time / intersects_time / `in` of a naive datetime')
+                        ck.count('zone:time')
+                    for sb in specs[1:]:
+                        pb = dt_pair(sb)
+                        tb = build_naive(tz, 'point', sb, rng.choice([w for w in naive_ways('point', sb) if w[0].startswith('ctor(dt=TimeInterval')]))
+                        if tb is None:
+                            continue
+                        tb = tb.dt
+                        oc, oi = a.contains_time(tb), a.intersects_time(tb)
+                        add(f'KTime {olit(pa)} {ivl(pb)} {blit(oc)} {blit(oi)}', {'k': 'time', 'zone': tz, 'dta': sa, 'shape_given': given, 'b': sb, 'probe': 'interval of naive datetimes'})
+                        share, incl = time_sets(pa, pb)
+                        flag(meta[-1], [incl, share], [oc, oi], 'contains_time / intersects_time of an interval given as naive datetimes')
+                        ck.count('zone:time')
+
     # collections: `collection.intersects(q)` for members that all carry time bounds is "some member intersects q"
     # (space AND time, member by member) - also after a member has been re-timed in place, which leaves a Track's
     # stored order non-chronological: the answer must not depend on that order.  (Implementation-side check.)
@@ -215,6 +380,9 @@ def main():
     ck.finish(rule='all ordered pairs of 15 shape fixtures (12 single incl. curved, 3 multi) x dt specs drawn from {none, 5 instants, 10 intervals} '
                    'on a 5-point timeline (full 16x16 product for 5 kind pairs, seeded samples + fixed touching/instant-at-end combos for the rest), '
                    'aware/naive/offset datetimes cycled; constructor, set_dt (in place and copy) for every kind x spec; contains_time/intersects_time; '
+                   'the naive-datetime part again under 5 (thorough 7) non-UTC PROCESS time zones set with TZ+tzset: ~10 public ways of giving a shape '
+                   'the naive reading of each instant/interval (bounds must be those of the UTC reading), the gate between naive-given and UTC/offset-stamped '
+                   'shapes in both orders, contains_time/intersects_time/in with naive datetimes and intervals of naive datetimes; '
                    'coordinate shortcut. Spatial answers are the implementation own intersects_shape/contains_shape on the same geometry WITHOUT time bounds. '
                    'non-trivial = both shapes time-bounded and the two intervals share an endpoint value (distinct (kinds,dts) counted)',
               assumptions=['spatial predicates are abstract in the theorems (any answers); C02 decides them',
